@@ -1906,6 +1906,11 @@ def _run_seeded(m, base_known=None):
     tmp = tempfile.mkdtemp(prefix="allfedsa_seed_")
     try:
         _make_scratch(tmp)
+        with open(m["patch"], encoding="utf-8", errors="replace") as pf:
+            touches_data = any(l.startswith(("+++ b/data/", "--- a/data/")) for l in pf)
+        if touches_data:
+            os.unlink(os.path.join(tmp, "data"))
+            shutil.copytree(os.path.join(REPO, "data"), os.path.join(tmp, "data"))
         p = subprocess.run(["git", "apply", "--unsafe-paths", "--directory", tmp, m["patch"]], cwd=tmp, capture_output=True, text=True)
         if p.returncode != 0:
             p = subprocess.run(["patch", "-p1", "-s", "-i", m["patch"]], cwd=tmp, capture_output=True, text=True)
